@@ -12,6 +12,9 @@
 package mcpx
 
 import (
+	"github.com/modelcontextprotocol/go-sdk/jsonrpc"
+	"net/http"
+	"bytes"
 	"bufio"
 	"context"
 	"encoding/json"
@@ -30,9 +33,12 @@ import (
 
 type c03Op struct {
 	N    int    `json:"n"`
-	Kind string `json:"kind"` // notify | call
+	Kind string `json:"kind"` // notify | call | roots (client.AddRoots: notifications/roots/list_changed)
 	Dur  int    `json:"dur_ms"`
 	Gap  int    `json:"gap_ms"` // sender pause before issuing this op
+	Callback bool `json:"callback,omitempty"` // notify: the handler calls back into the peer with its own context before it goes on working
+	WriteMs  int  `json:"write_ms,omitempty"` // roots: the transport takes this long to accept the notification
+	Fault503 bool `json:"fault_503,omitempty"` // notify over HTTP: the POST is answered 503 once
 }
 
 type c03Spec struct {
@@ -54,6 +60,7 @@ func genC03(r *vh.Rand) c03Spec {
 		s.Version = ""
 		s.Transport = r.Choose("mem", "pipe")
 	}
+	// (the ops below depend on mode, transport and version)
 	for i, k := 0, r.Range(3, 12); i < k; i++ {
 		op := c03Op{N: i + 1, Kind: "notify", Dur: r.Intn(6), Gap: []int{0, 0, 0, 1, 2, 3}[r.Intn(6)]}
 		if r.Chance(2, 5) {
@@ -61,6 +68,15 @@ func genC03(r *vh.Rand) c03Spec {
 		}
 		if r.Chance(1, 12) {
 			op.Dur = []int{9000, 11000, 30000, 61000, 600000}[r.Intn(5)] // very slow handlers cost nothing in virtual time
+		}
+		persistent := s.Transport == "mem" || s.Transport == "pipe"
+		switch {
+		case op.Kind == "notify" && persistent && s.Mode != "raw-init" && r.Chance(1, 4):
+			op.Callback = true
+		case op.Kind == "notify" && s.Mode == "c2s" && persistent && s.Version != "" && r.Chance(1, 5):
+			op.Kind, op.WriteMs = "roots", []int{0, 1, 1500, 2500}[r.Intn(4)]
+		case op.Kind == "notify" && s.Mode == "c2s" && (s.Transport == "http" || s.Transport == "http-json") && r.Chance(1, 5):
+			op.Fault503 = true
 		}
 		s.Ops = append(s.Ops, op)
 	}
@@ -116,10 +132,35 @@ func c03Nonce(req mcp.Request) int {
 	return 0
 }
 
-func c03MW(log *vh.Log, dur map[int]time.Duration, initDur time.Duration) mcp.Middleware {
+// c03Extra carries the per-case attributes the receiving middleware needs besides durations.
+type c03Extra struct {
+	mu       sync.Mutex
+	callback map[int]bool // notification nonces whose handler calls back into the peer
+	roots    []int        // op numbers of the roots/list_changed notifications, in sending order
+}
+
+func (x *c03Extra) nextRoots() int {
+	x.mu.Lock()
+	defer x.mu.Unlock()
+	if len(x.roots) == 0 {
+		return 0
+	}
+	n := x.roots[0]
+	x.roots = x.roots[1:]
+	return n
+}
+
+func c03MW(log *vh.Log, dur map[int]time.Duration, initDur time.Duration, extra ...*c03Extra) mcp.Middleware {
+	var x *c03Extra
+	if len(extra) > 0 {
+		x = extra[0]
+	}
 	return func(next mcp.MethodHandler) mcp.MethodHandler {
 		return func(ctx context.Context, method string, req mcp.Request) (mcp.Result, error) {
 			n := c03Nonce(req)
+			if method == "notifications/roots/list_changed" && x != nil {
+				n = x.nextRoots()
+			}
 			d := dur[n]
 			if method == "initialize" {
 				n, d = -1, initDur
@@ -131,6 +172,17 @@ func c03MW(log *vh.Log, dur map[int]time.Duration, initDur time.Duration) mcp.Mi
 				return next(ctx, method, req)
 			}
 			log.Add("handler-start", "n", n, "method", method)
+			if x != nil && x.callback[n] {
+				// the handler asks its peer something, with its own context, and then goes on working
+				var err error
+				switch sess := req.GetSession().(type) {
+				case *mcp.ServerSession:
+					_, err = sess.ListRoots(ctx, nil)
+				case *mcp.ClientSession:
+					_, err = sess.ListTools(ctx, nil)
+				}
+				log.Add("callback-returned", "n", n, "err", fmt.Sprint(err))
+			}
 			if d > 0 {
 				time.Sleep(d)
 			}
@@ -154,12 +206,80 @@ func runC03(c *vh.Case, spec c03Spec) {
 	})
 	client := mcp.NewClient(&mcp.Implementation{Name: "c", Version: "1"}, nil)
 	client.AddRoots(&mcp.Root{URI: "file:///r"})
-	if spec.Mode == "c2s" {
-		server.AddReceivingMiddleware(c03MW(log, dur, 0))
-	} else {
-		client.AddReceivingMiddleware(c03MW(log, dur, 0))
+	extra := &c03Extra{callback: map[int]bool{}}
+	writeMs := map[int]int{}
+	fault503 := map[int]bool{}
+	for _, op := range spec.Ops {
+		if op.Callback {
+			extra.callback[op.N] = true
+		}
+		if op.Kind == "roots" {
+			extra.roots = append(extra.roots, op.N)
+			writeMs[op.N] = op.WriteMs
+		}
+		if op.Fault503 {
+			fault503[op.N] = true
+		}
 	}
-	pair, err := vhm.Connect(ctx, vhm.PairOpts{Kind: spec.Transport, Server: server, Client: client, ClientVersion: spec.Version, AsyncDelete: true})
+	if spec.Mode == "c2s" {
+		server.AddReceivingMiddleware(c03MW(log, dur, 0, extra))
+	} else {
+		client.AddReceivingMiddleware(c03MW(log, dur, 0, extra))
+	}
+	po := vhm.PairOpts{Kind: spec.Transport, Server: server, Client: client, ClientVersion: spec.Version, AsyncDelete: true}
+	var rootsPending []int // roots ops whose notification is about to be written, in order
+	var rpmu sync.Mutex
+	if spec.Transport == "mem" || spec.Transport == "pipe" {
+		po.WrapClient = func(inner mcp.Connection) mcp.Connection {
+			fc := vhm.NewFaultConn(inner, vh.NewLog(), "client") // its own log: the wire events are not needed here
+			fc.BeforeWrite = func(_ context.Context, msg jsonrpc.Message, _ int) error {
+				if req, ok := msg.(*jsonrpc.Request); ok && req.Method == "notifications/roots/list_changed" {
+					rpmu.Lock()
+					d := 0
+					if len(rootsPending) > 0 {
+						d = writeMs[rootsPending[0]]
+						rootsPending = rootsPending[1:]
+					}
+					rpmu.Unlock()
+					if d > 0 {
+						time.Sleep(ms(d)) // a slow hop: the transport accepts the message only now
+					}
+				}
+				return nil
+			}
+			return fc
+		}
+	}
+	pair, err := vhm.Connect(ctx, po)
+	if err == nil && pair.InProc != nil && len(fault503) > 0 {
+		var fmu sync.Mutex
+		pair.InProc.Before = func(req *http.Request, _ int64) (*http.Response, error) {
+			if req.Method != "POST" || req.Body == nil {
+				return nil, nil
+			}
+			b, _ := io.ReadAll(req.Body)
+			req.Body = io.NopCloser(bytes.NewReader(b))
+			if !bytes.Contains(b, []byte(`"notifications/progress"`)) {
+				return nil, nil
+			}
+			var m struct {
+				Params struct {
+					Meta map[string]any `json:"_meta"`
+				} `json:"params"`
+			}
+			json.Unmarshal(b, &m)
+			n, _ := m.Params.Meta["nonce"].(float64)
+			fmu.Lock()
+			defer fmu.Unlock()
+			if fault503[int(n)] {
+				delete(fault503, int(n))
+				log.Add("gateway-503", "n", int(n))
+				return &http.Response{StatusCode: 503, Status: "503 Service Unavailable", Proto: "HTTP/1.1", ProtoMajor: 1, ProtoMinor: 1,
+					Header: http.Header{"Content-Type": []string{"text/plain"}}, Body: io.NopCloser(strings.NewReader("try later")), Request: req}, nil
+			}
+			return nil, nil
+		}
+	}
 	if err != nil || pair.SS == nil {
 		c.Inconclusive("connect %s: %v", spec.Transport, err)
 		return
@@ -174,6 +294,14 @@ func runC03(c *vh.Case, spec c03Spec) {
 			time.Sleep(ms(op.Gap))
 		}
 		log.Add("send", "n", op.N, "kind", op.Kind)
+		if op.Kind == "roots" {
+			rpmu.Lock()
+			rootsPending = append(rootsPending, op.N)
+			rpmu.Unlock()
+			client.AddRoots(&mcp.Root{URI: fmt.Sprintf("file:///root-%d", op.N)})
+			log.Add("api-return", "n", op.N)
+			continue
+		}
 		if op.Kind == "notify" {
 			p := &mcp.ProgressNotificationParams{Meta: mcp.Meta{"nonce": op.N}, ProgressToken: "t", Progress: float64(op.N)}
 			var err error
@@ -181,6 +309,11 @@ func runC03(c *vh.Case, spec c03Spec) {
 				err = cs.NotifyProgress(ctx, p)
 			} else {
 				err = ss.NotifyProgress(ctx, p)
+			}
+			if err != nil && op.Fault503 {
+				// the gateway refused it and the sender was told so: the message does not exist
+				log.Add("notify-refused", "n", op.N, "err", err.Error())
+				continue
 			}
 			if err != nil {
 				c.Inconclusive("notify %d failed: %v", op.N, err)
@@ -327,8 +460,27 @@ func decideC03(c *vh.Case, spec c03Spec) {
 	if spec.Mode == "raw-init" {
 		seq = append(seq, item{-1, "init", int64(spec.InitDur) * 1000}, item{-2, "notify", 0})
 	}
+	refused := map[int]bool{}
+	for _, e := range evs {
+		if e.Kind == "notify-refused" {
+			refused[fint(e, "n")] = true
+		}
+	}
+	arriveAfter := map[int]int64{}
 	for _, op := range spec.Ops {
-		seq = append(seq, item{op.N, op.Kind, int64(op.Dur) * 1000})
+		if refused[op.N] {
+			if _, ran := start[op.N]; ran {
+				c.Violate("refused-notification-dispatched", "notification %d: the sender was told it failed (HTTP 503), yet it was dispatched", op.N)
+				return
+			}
+			continue
+		}
+		kind := op.Kind
+		if kind == "roots" {
+			kind = "notify"
+			arriveAfter[op.N] = int64(op.WriteMs) * 1000
+		}
+		seq = append(seq, item{op.N, kind, int64(op.Dur) * 1000})
 	}
 	// reference dispatcher
 	var free int64
@@ -345,7 +497,7 @@ func decideC03(c *vh.Case, spec c03Spec) {
 			c.Violate("message-not-dispatched", "message %d (%s) sent at %dus was never dispatched to its handler (start seen %v, finish seen %v)", it.n, it.kind, sv.T, ok1, ok2)
 			return
 		}
-		want := sv.T
+		want := sv.T + arriveAfter[it.n]
 		if free > want {
 			want = free
 			barrier = true
